@@ -67,6 +67,7 @@ func checkC06(c *Ctx, r *Report) {
 	runEPANIC(c, r, reach, "the decode entry points")
 	runEMAKE(c, r, reach, "the decode entry points")
 	runEDIV(c, r, reach, "the decode entry points")
+	runETableIdx(c, r, reach, "the decode entry points", 1)
 	checkSquareGuard(c, r)
 	checkCodabarIndexPair(c, r)
 	// the frozen E-DROP rows of the Data Matrix decoder rest on its version table: decide that here as well
